@@ -18,6 +18,7 @@ import OFV.Proofs.C07DoubleComm
 import OFV.Proofs.C07DCMain
 import OFV.Proofs.C07TermInfo
 import OFV.Proofs.C07BosonAdj
+import OFV.Proofs.C07BosonKey
 import OFV.Proofs.C07BCH8
 import OFV.Proofs.C07BCHExp
 import OFV.Proofs.C07BCHUniv
@@ -468,6 +469,24 @@ example : Proofs.C07A.melB [(0, 1), (0, 1), (1, 0)] [1, 2] [3, 1] = 2 ∧
     Proofs.C07A.melB (sortF (hcTermF [(0, 1), (0, 1), (1, 0)])) [3, 1] [1, 2] = 6 ∧
     Proofs.C06B.wfact [3, 1] = 6 ∧ Proofs.C06B.wfact [1, 2] = 2 := by
   refine ⟨by decide +kernel, by decide +kernel, by decide, by decide⟩
+
+/-- **`hc_boson_key_injective`**: on the terms a BosonOperator stores (ladder words sorted by mode index,
+as `_simplify` leaves them) the key map `t ↦ sorted(reverse-and-flip(t))` of `hermitian_conjugated` is
+injective — the stable sort keeps the sub-word of every mode, and an index-sorted word is determined by
+its sub-words. -/
+theorem hc_boson_key_injective (t₁ t₂ : List (Nat × Nat))
+    (s₁ : t₁.Pairwise (fun a b => a.1 ≤ b.1)) (s₂ : t₂.Pairwise (fun a b => a.1 ≤ b.1))
+    (l₁ : ∀ f ∈ t₁, f.2 ≤ 1) (l₂ : ∀ f ∈ t₂, f.2 ≤ 1)
+    (h : sortF (hcTermF t₁) = sortF (hcTermF t₂)) : t₁ = t₂ :=
+  Proofs.C07K.key_injective t₁ t₂ s₁ s₂ l₁ l₂ h
+
+/-- **`hc_boson_terms`** — BosonOperator branch, dictionary level, for ALL stored operators: the plain
+assignment `conjugate_operator.terms[key] = coefficient.conjugate()` never overwrites; the Model function
+the driver executes returns the term-by-term image `(sorted(reverse-and-flip(t)), conj c)`, in order. -/
+theorem hc_boson_terms (A : List (List (Nat × Nat) × GQ)) (hk : (Dict.keys A).Nodup)
+    (hs : ∀ e ∈ A, e.1.Pairwise (fun a b => a.1 ≤ b.1)) (hl : ∀ e ∈ A, ∀ f ∈ e.1, f.2 ≤ 1) :
+    hcBoson A = A.map (fun e => (sortF (hcTermF e.1), e.2.conj)) :=
+  Proofs.C07K.hcBoson_terms A hk hs hl
 
 /-- QuadOperator branch: `q_j`, `p_j` are self-adjoint, so the involution is word reversal; the stored
 key `sorted(reversed(t))` denotes the reversed word for every `ħ` and every monomial. -/
